@@ -333,6 +333,51 @@ def r4_pairing_state_survives_chunks(chk, prog):
     return len(chunk)
 
 
+def r8_env_var_name(chk, prog, rule='R8'):
+    """the environment variable that is read is the one the application named: Handler::checkReadEnvVarArgs() derives
+    (and upper-cases) a name only when none was set - every write or in-place transformation of the name member is
+    guarded by the 'name is empty' test - and getenv() is asked for exactly that member; the setter stores the given
+    name unchanged"""
+    from ..rules import implied_edges
+    f = prog.one('celma::prog_args::Handler', 'checkReadEnvVarArgs')
+    cfg = f.cfg
+    NAME = 'mEnvVarName'
+    empty_true = implied_edges(f, lambda x: x.get('k') == 'CXXMemberCallExpr' and (x.get('callee') or '').endswith('::empty')
+                               and field_name(object_of(x)) == NAME, True)
+    chk.require(empty_true, 'checkReadEnvVarArgs: test "no name set" not found')
+    writes = []
+    for x in f.walk():
+        if x.get('k') == 'CXXOperatorCallExpr' and x.get('op') in ('=', '+=') and call_args(x) and \
+                field_name(call_args(x)[0]) == NAME:
+            writes.append(x)
+        elif x.get('k') == 'CXXMemberCallExpr' and field_name(object_of(x)) == NAME and \
+                (x.get('callee') or '').split('::')[-1] in ('assign', 'append', 'insert', 'erase', 'replace', 'clear',
+                                                            'push_back', 'resize', 'swap'):
+            writes.append(x)
+        elif x.get('k') == 'CallExpr' and any(field_name(a) == NAME and pk in ('ref', 'ptr')
+                                              for a, pk in zip(call_args(x), x.get('pk') or [])):
+            writes.append(x)
+    for w in writes:
+        pos = cfg.position(w)
+        ok = any(b in cfg.succ[a] and cfg.guarded_by_edge(pos, a, cfg.succ[a].index(b)) for a, b in empty_true)
+        chk.check(ok, rule, f.name, 'the name of the environment variable is derived / transformed only when the '
+                  'application did not name one', f.loc(w), 'a name given by the application is changed before getenv()')
+    ge = [c for c in f.calls() if callee_is(c, 'getenv')]
+    chk.check(len(ge) == 1 and mentions_field(call_args(ge[0])[0], NAME) and
+              not f.cfg.must_pass_through(lambda n: n in ge), rule, f.name, 'getenv() is asked for the stored name',
+              f.loc())
+    setters = [g for g in prog.functions if g.classq == 'celma::prog_args::Handler' and g.short == 'checkEnvVarArgs'
+               and g.body is not None]
+    for g in setters:
+        asg = [x for x in g.walk() if x.get('k') == 'CXXOperatorCallExpr' and x.get('op') == '=' and call_args(x) and
+               field_name(call_args(x)[0]) == NAME]
+        ok = bool(asg) and all(strip_all_casts(call_args(a)[1]).get('k') == 'DeclRefExpr' or
+                               mentions_var(call_args(a)[1], g.params[0]['name']) if g.params else True for a in asg)
+        calls_on_rhs = [c for a in asg for c in walk(call_args(a)[1]) if c.get('k') == 'CallExpr']
+        chk.check(ok and not calls_on_rhs, rule, g.name, 'the name given by the application is stored unchanged', g.loc())
+    return len(writes)
+
+
 def run(chk):
     prog, units = rules.prog_args_program()
     chk.units = units
@@ -382,6 +427,8 @@ def run(chk):
     chk.rule('R7', 'the stored value never depends on the previous content of the destination (shared with C01-R12)', 10)
     from . import c01 as _c01
     _c01.r12_store_independent_of_destination(chk, prog, rule='R7')
+    chk.rule('R8', 'the environment variable that is read is the one the application named', 3)
+    r8_env_var_name(chk, prog)
     chk.rule('R6', 'the read mode reaches the sub-group handler that evaluates words of a file / environment source', 1)
     pa = prog.one('celma::prog_args::Handler', 'processArg')
     pcfg = pa.cfg
